@@ -1,6 +1,7 @@
-(** C05 — stream() never stalls and ends exactly when all functions were yielded. *)
+(** C05 — stream() never stalls and ends exactly when all functions were yielded.
+    All four variants (stream / stream_with / stream_interruptible / stream_with_interruptible). *)
 From FG Require Import Dag Builder Sched DagFacts EdgeFacts RankFacts BuilderFacts TopoFacts AugFacts BuildFacts
-     SchedInv SafetyFacts CfgFacts StreamInv SI_Queuer SI_Step SI_Stream SafetyInv StreamFacts.
+     SchedInv SafetyFacts CfgFacts StreamInv SI_Queuer SI_Step SI_Stream SafetyInv StreamFacts IntCredit StreamIntFacts.
 
 (** Any interleaving of poll_next, FnRef drops (any number between two polls), interrupt signals
     and dropping the stream — in any order, drops after the stream is gone included — never reaches
@@ -82,6 +83,40 @@ Proof.
   apply (drop_wakes sc s' i Hsok Hinv' Halive' Hwk Hi).
 Qed.
 Print Assumptions C05_drop_after_pending_wakes.
+
+(** The same two facts for every variant of the stream (interruptible or not, every strategy): a
+    Pending poll is justified by a held FnRef of a strict ancestor of each unyielded function, and
+    dropping any held FnRef afterwards signals the wake-up. *)
+Theorem C05_pending_justified_all_variants : forall ops G p q rev st intr evs s',
+  build (builder_run ops) = BOk G p q ->
+  let sc := mk_scfg G rev st intr true in
+  s_alive (srun sc evs) = true ->
+  sstep sc (srun sc evs) SNext = (s', WPending) ->
+  (forall c, c < ncount (builder_run ops) -> ~ In c (starts (trace s')) ->
+     exists a, Path (sc_es sc) a c /\ a <> c /\ In a (wait_ids (members s'))) /\
+  (forall i, In i (wait_ids (members s')) -> woken (fst (sstep sc s' (SDrop i))) = true).
+Proof. exact pending_justified_any. Qed.
+Print Assumptions C05_pending_justified_all_variants.
+
+(** Interruptible streams: None comes only after every function was yielded or after the
+    interruption was reported; when every function was yielded the poll answers None (or, if a
+    signal is decided in that very poll, Interrupted(None) followed by None: C08); an Interrupted
+    item is produced only if a signal was really sent and the strategy listens to it. *)
+Theorem C05_none_interruptible : forall ops G p q rev st drain evs s' r,
+  build (builder_run ops) = BOk G p q ->
+  let sc := mk_scfg G rev st true drain in
+  s_alive (srun sc evs) = true ->
+  sstep sc (srun sc evs) SNext = (s', r) ->
+  (r = WNone -> length (starts (trace (srun sc evs))) = ncount (builder_run ops) \/ w_ian (w (srun sc evs)) = true) /\
+  (length (starts (trace (srun sc evs))) = ncount (builder_run ops) -> r = WNone \/ r = WInt None) /\
+  (forall o, r = WInt o -> signal_present (srun sc evs) /\ st <> SNonInt /\ st <> SIgnore /\ w_ian (w s') = true).
+Proof.
+  intros ops G p q rev st drain evs s' r Hb sc Halive Hstep. split; [|split].
+  - intros ->. exact (none_int_run ops G p q rev st drain evs s' Hb Halive Hstep).
+  - exact (all_yielded_int_run ops G p q rev st drain evs s' r Hb Halive Hstep).
+  - intros o ->. exact (int_item_run sc evs s' o eq_refl Halive Hstep).
+Qed.
+Print Assumptions C05_none_interruptible.
 
 (** Non-vacuity: a, b -> c; yield a, b; poll (Pending); drop both; the next poll yields c. *)
 Example C05_example :
